@@ -191,7 +191,13 @@ func build(o *getoptions.GetOpt, c *CmdDef, path string, ran *string, nodes *[]n
 	if c.Fn {
 		name := path
 		o.SetCommandFn(func(ctx context.Context, op *getoptions.GetOpt, args []string) error {
-			*ran += fmt.Sprintf("ran %s args=%q;", name, args)
+			*ran += fmt.Sprintf("ran %s args=%q ctx=%v;", name, args, ctx.Err())
+			if fnCancel != nil {
+				fnCancel()
+			}
+			if fnErr {
+				return fmt.Errorf("%s: cleanup failed", name)
+			}
 			return nil
 		})
 	}
@@ -204,6 +210,12 @@ func build(o *getoptions.GetOpt, c *CmdDef, path string, ran *string, nodes *[]n
 		define(o, d)
 	}
 }
+
+// what the command functions of the scenario under observation do besides recording that they ran
+var (
+	fnCancel context.CancelFunc
+	fnErr    bool
+)
 
 func errClass(err error) string {
 	if err == nil {
@@ -363,8 +375,23 @@ func observeArgv(sc *Scenario, ord Order, st *obsStats, shared []string) (out st
 						_, _, e2 := opt.GetRequiredArgInt(rest)
 						fmt.Fprintf(&b, "required-arg=%q %s %s writer=%q\n", a1, errClass(e1), errClass(e2), rw.String())
 						getoptions.Writer = &w
-						derr := opt.Dispatch(context.Background(), rem)
+						// the context the program hands to Dispatch is part of the input
+						dctx, dcancel := context.Background(), context.CancelFunc(func() {})
+						switch sc.Ctx {
+						case "cancelled":
+							dctx, dcancel = context.WithCancel(dctx)
+							dcancel()
+						case "fn":
+							dctx, dcancel = context.WithCancel(dctx)
+							fnCancel = dcancel
+						case "deadline":
+							dctx, dcancel = context.WithDeadline(dctx, time.Unix(0, 0))
+						}
+						fnErr = sc.FnErr
+						derr := opt.Dispatch(dctx, rem)
 						fmt.Fprintf(&b, "dispatch.error=%s\ndispatch.ran=%s\n", errClass(derr), ran)
+						fnCancel, fnErr = nil, false
+						dcancel()
 						if reparseProbe {
 							// the same object parses the same arguments again: which command is selected and what
 							// is left over must not depend on the previous Parse/Dispatch
